@@ -19,14 +19,14 @@ Definition a_steps (ip : buf) : body :=
   | 0 => []
   | 4 => [SBytes ip]
   | 16 => if is_v4_in_v6 ip then [SBytes (skipn 12 ip)] else [SSkip 4]
-  | _ => [SFail]
+  | _ => [SFail; SOver 4]                    (* len() counts four octets for any non-empty address *)
   end.
 (* packDataAAAA *)
 Definition aaaa_steps (ip : buf) : body :=
   match length ip with
   | 0 => []
   | 16 => [SBytes ip]
-  | _ => [SFail]
+  | _ => [SFail; SOver 16]
   end.
 
 (* packIPSECGateway (IPSECKEY and AMTRELAY; the type octet is compared whole, so an AMTRELAY
@@ -76,13 +76,16 @@ Definition steps_of (r : rdata) : body :=
   | RLOC v s h vp lat lon alt => [SBytes ([v; s; h; vp] ++ u32_bytes lat ++ u32_bytes lon ++ u32_bytes alt)]
   | RNSEC3 hash flags it sl salt hl next next_text bitmap =>
       [SBytes ([hash; flags] ++ u16_bytes it ++ [sl])] ++ salt_steps salt ++
-      [SBytes [hl]; SBytes next; SBytes bitmap; SOver (2 + next_text - length next)]
+      [SBytes [hl]; SBytes next; SBytes bitmap;
+       (* typeBitMapLen counts a window header even for an empty bitmap *)
+       SOver (2 + next_text - length next + match bitmap with [] => 2 | _ => 0 end)]
   | RNSEC3PARAM hash flags it sl salt =>
       [SBytes ([hash; flags] ++ u16_bytes it ++ [sl])] ++ salt_steps salt
   | RSVCB prio target pairs =>
       let sorted := sort_pairs pairs in
       [SBytes (u16_bytes prio); SName target false] ++
-      (if repeated_key sorted then [SFail] else flat_map pair_steps sorted)
+      (* a repeated key is refused; len() still counts every pair *)
+      (if repeated_key sorted then [SFail; SOver (body_len (flat_map pair_steps sorted))] else flat_map pair_steps sorted)
   | RIPSECKEY prec gt alg addr host key key_text =>
       [SBytes [prec; gt; alg]] ++ gateway_steps gt addr host ++ [SBytes key; SOver (key_text / 4 * 3 - length key)]
   | RAMTRELAY prec gt addr host =>
